@@ -372,6 +372,10 @@ func (g *Gen) HistoryIO() []E {
 			evs = append(evs, E{"op": "Import", "c": "dups", "path": "dup.json"})
 		}
 	}
+	// what the catalog says about every name that was the target of a compound creation
+	for _, n := range []string{names[0], names[1], "hand", "dups", "byq", "byq2", other} {
+		evs = append(evs, E{"op": "HasCollection", "c": n})
+	}
 	evs = append(evs, E{"op": "ListCollections", "audit": true})
 	return evs
 }
